@@ -302,10 +302,19 @@ theorem candidates_desc (P : Cmp) (A B : List Tbl) :
         simp [tableDescOf, hinA, hinB]; exact ⟨rfl, rfl, rfl⟩
       simp only [tableExisting, List.mem_append] at hg
       have key : GroupOk A B c.key g := by
-        rcases hg with ((hg | hg) | hg) | hg
+        rcases hg with (((hg | hg) | hg) | hg) | hg
         · exact colsAddedAltered_ok P A B c.key c m g hg
         · exact cmpIdxUq_ok P A B c.key (some c) (some m) hfind hfm g hg
         · exact cmpFks_ok A B c.key c m hfind hfm g hg
+        · -- table comment: targets the table itself
+          intro op hop
+          simp only [tableCommentG, List.mem_singleton] at hg
+          subst hg
+          by_cases hd : P.tableCommentDiffer c.key = true
+          · simp [hd] at hop
+            subst hop
+            exact ⟨htd, rfl⟩
+          · simp [hd] at hop
         · exact colsRemoved_ok A B c.key c m g hg
       obtain ⟨h1, h2⟩ := key op hop
       exact ⟨h1, by rw [h2]; exact htd⟩
